@@ -102,6 +102,8 @@ type ReplayFile struct {
 	Tasks    []string `json:"tasks_at_end"`
 }
 
+const hashCap = 250_000
+
 var progress atomic.Int64
 
 // Watchdog aborts the process (exit 2: infrastructure, never a verdict) when
@@ -148,11 +150,16 @@ func (a *agg) add(p *Plan, r *RunResult) {
 	for k, v := range r.Cover {
 		o.Cover[k] += v
 	}
-	a.sched[r.Hash] = struct{}{}
-	if r.NonTrivial {
+	// exact up to a cap per worker; beyond it the counts are lower bounds
+	if len(a.sched) < hashCap {
+		a.sched[r.Hash] = struct{}{}
+	} else {
+		o.Probes["distinct_schedule_count_capped"] = 1
+	}
+	if r.NonTrivial && len(a.nont) < hashCap {
 		a.nont[r.Hash] = struct{}{}
 	}
-	if len(a.state) < 2_000_000 {
+	if len(a.state) < hashCap {
 		for h := range r.States {
 			a.state[h] = struct{}{}
 		}
